@@ -98,6 +98,35 @@ CHECKS.update({
                      "of covered.",
                 technique="TLA+ instruction-level reachability (RegexCheck.tla) evaluated by TLC against the real regex engine"),
 })
+CHECKS.update({
+    "C12": dict(level="model_checking", design_ref="DESIGN.md §5 C12",
+                text="Every dispatch path of CutGen.tla (simple paths of up to four blocks from the entry) is given to the real "
+                     "construct_function(), all functions of a contract in one Teal object.  Static clauses (CutCheck.tla): the "
+                     "function graph is the main graph with the off-path successors replaced by error blocks, same ids/lines/text, "
+                     "shared subroutines, contract graph unchanged, contexts independent of the other functions built.  Dynamic: "
+                     "TLC runs Avm.tla; every accepting execution whose entered-block sequence starts with the path must be "
+                     "admitted by the function's contexts.",
+                technique="TLA+ path surgery (CutCheck!Cut) + TLC exploration of Avm executions restricted to the dispatch path"),
+    "C13": dict(level="model_checking", design_ref="DESIGN.md §5 C13",
+                text="Group configurations of GroupGen.tla (1-3 transactions over 12 contracts, types, absolute indices, relative "
+                     "offsets) are analysed by the real init_tealer_from_config() with 8 detectors; the reported vulnerable "
+                     "transactions must equal Group!Vulnerable (eligibility, own / absolute / relative clearing with the offset "
+                     "direction of the property) evaluated on the tool's own leaf contexts, and a one-transaction group must agree "
+                     "with the single-contract verdict.",
+                technique="TLA+ verdict rules (Group.tla) judged by TLC against the real group-mode detectors on TLC-generated configurations"),
+    "C14": dict(level="model_checking", design_ref="DESIGN.md §5 C14",
+                text="Histories of Session.tla (up to three actions: analyse contract c with detector order o, re-run) over eight "
+                     "sensitising contracts are replayed each in one fresh interpreter under rotating PYTHONHASHSEED values; the "
+                     "digests of contexts / ordered paths / JSON recorded after every action are validated as a trace of Session "
+                     "with Result = the digest of a fresh single-action process (SessionTrace.tla).",
+                technique="trace validation of recorded process histories against a TLA+ session specification with TLC"),
+    "C15": dict(level="exploration", design_ref="DESIGN.md §5 C15",
+                text="Rewrite.tla defines the rewrites (rename, hex, oct, numeric, pushint, intcblock+intc, padding, moving "
+                     "subroutines, compositions) with their line maps; TLC shows each generated pair equivalent on Avm.tla and "
+                     "RewriteCheck.tla demands equal per-block contexts and equal path sets under the induced block map; comment / "
+                     "blank-line / indentation variants come from the pretty-printer.",
+                technique="TLA+ rewrite relation justified on the Avm machine, pairs analysed by the real tool and compared by TLC"),
+})
 for _c in CHECKS.values():
     _c.setdefault("note", TLC_NOTE)
 
